@@ -63,7 +63,43 @@ func (p *Prog) inlineOverlay() (map[string][]byte, []string) {
 	if len(newFns) == 0 {
 		return nil, nil
 	}
+	// leaf-first: a helper that itself calls other new helpers is inlined in a
+	// later round, after those calls were inlined into it (otherwise its copied
+	// body would still call helpers that this round removes)
+	nonLeaf := map[*Func]bool{}
 	for f := range newFns {
+		for _, cs := range ci.sites[f] {
+			for _, ce := range cs.Callees {
+				if ce != nil && ce != f && newFns[ce] {
+					nonLeaf[f] = true
+				}
+			}
+		}
+		// literals inside the helper calling new helpers count as well
+		for _, lf := range p.Funcs {
+			if lf.Lit == nil {
+				continue
+			}
+			root := lf
+			for root.Parent != nil {
+				root = root.Parent
+			}
+			if root != f {
+				continue
+			}
+			for _, cs := range ci.sites[lf] {
+				for _, ce := range cs.Callees {
+					if ce != nil && ce != f && newFns[ce] {
+						nonLeaf[f] = true
+					}
+				}
+			}
+		}
+	}
+	for f := range newFns {
+		if nonLeaf[f] {
+			continue
+		}
 		for _, cs := range ci.callers[f] {
 			if len(cs.Callees) != 1 || cs.IsIface || newFns[cs.Caller] && false {
 				continue
